@@ -646,4 +646,4 @@ def short_key(key):
     """A body key with the module qualifiers of every path in it dropped (`std::mem::MaybeUninit[private::MaybeUninitExt]::uninit_array`
     -> `MaybeUninit[MaybeUninitExt]::uninit_array`): where a private item lives is not part of what it does."""
     import re as _re
-    return _re.sub(r"(?:[A-Za-z_]\w*::)+(?=[A-Za-z_&'\[(])", "", key)
+    return _re.sub(r"(?<![A-Za-z0-9_])(?:[a-z_][a-z0-9_]*::)+", "", key)        # module segments are snake_case; type names stay
